@@ -62,5 +62,5 @@ Example C14_nonvacuous :
    sync_obs true (5, 50) [(5,5,40,50)] (7, 70) 2,
    sync_obs true (5, 50) [] (0, 0) 0,
    sync_obs true (5, 50) [(3,3,21,30); (4,4,30,40); (5,5,40,50)] (2, 20) 2)
-  = ([4; 3; 5; 2; 5; 50; 5; 50; 5], [3; 4; 3; 2; 20; 2; 20; 2], [3; 2; 3; 7; 70; 7; 70; 2], [2; 2; 5; 50; 5; 50; 5], [4; 3; 5; 3; 2; 20; 2; 20; 2]).
+  = ([2; 5; 50; 5; 50; 5], [3; 2; 20; 2; 20; 2], [3; 7; 70; 7; 70; 2], [2; 5; 50; 5; 50; 5], [3; 2; 20; 2; 20; 2]).
 Proof. vm_compute. reflexivity. Qed.
